@@ -223,7 +223,7 @@ def craft_echo(node, dst_ip: str, ttl: int):
     return bool(nic.send_frame(frame))
 
 
-N_TOPOS = 9
+N_TOPOS = 10
 DOMAIN = "c08.example"
 KINDS = ["ping", "dns", "web", "db", "ftp", "ntp"]
 SERVER_SW = {"dns": ["dns-server"], "web": ["dns-server", "web-server"], "db": ["database-service"], "ftp": ["ftp-server"],
@@ -342,6 +342,55 @@ def run_exchanges(rec: rf.FwdRecorder, build: Callable[[str, str], Tuple[Any, rf
     return out
 
 
+def run_chains(rec: rf.FwdRecorder, build: Callable[[str, str], Tuple[Any, rf.Scene]], hosts: List[str], label: str,
+               chk: common.Check) -> List[Dict[str, Any]]:
+    """Histories of TWO exchanges after one cold start (what a node has learnt from the first exchange - from frames that
+    merely passed through it - must not spoil the second): every ordered pair of distinct host pairs, pings."""
+    out: List[Dict[str, Any]] = []
+    pairs = [(s, d) for s in hosts for d in hosts if s != d]
+    uid = [10**6]
+    for p1 in pairs:
+        for p2 in pairs:
+            if p1 == p2:
+                continue
+            game, scene = build(p2[0], p2[1])
+            clear_caches(scene)
+            first_ok = False
+            for _ in range(COLD_ATTEMPTS):
+                uid[0] += 1
+                st, val = guarded(lambda: exchange("ping", scene.obj[p1[0]], scene.obj[p1[1]], scene.real_ip(p1[1]), str(uid[0])))
+                if st != "ok" or val:
+                    first_ok = st == "ok"
+                    break
+                guarded(lambda: tick(game))
+            s, d = p2
+            stim = {"scenario": label, "kind": "ping", "src": s, "dst": d, "dst_ip": scene.real_ip(d), "warm": False,
+                    "after": list(p1), "first_ok": first_ok}
+            rec.start(scene)
+            evs, ok, n = [], False, 0
+            for _ in range(COLD_ATTEMPTS):
+                n += 1
+                uid[0] += 1
+                st, val = guarded(lambda: exchange("ping", scene.obj[s], scene.obj[d], scene.real_ip(d), str(uid[0])))
+                if st != "ok":
+                    evs.append(rf.blank(st, kind="ping", src=scene.by_name[s], node=scene.by_name[d]))
+                    stim["exception"] = str(val)
+                    break
+                ok = bool(val)
+                if ok:
+                    break
+                guarded(lambda: tick(game))
+            rec.stop()
+            if not evs:
+                evs.append(rf.blank("Exchange", kind="ping", src=scene.by_name[s], node=scene.by_name[d], dst=scene.addr_of_node(d),
+                                    saddr=scene.addr_of_node(s), ok=ok, perm=True, n=n, acc=False))
+            out.append({"cfg": scene.cfg("exchange"), "ev": evs, "meta": {"kind": "ping", "warm": False, "scenario": label + "+chain"},
+                        "stimulus": stim})
+            out += rec.take(stimulus=stim)
+            chk.add_case(("chain", label, p1, p2))
+    return out
+
+
 def pair_builder(topo: List[Dict[str, Any]]) -> Callable[[str, str], Tuple[Any, rf.Scene]]:
     """A fresh real network per ordered pair: client software on src, server software on dst (a host that carried both
     would answer its own protocol's replies: client and server share the port)."""
@@ -443,6 +492,8 @@ def fwd_sig(tr, event, stuck):
     }
     if event.get("ev") == "Exchange":
         sig["warm"] = bool(event.get("acc"))
+    if (tr.get("stimulus") or {}).get("after"):
+        sig["second_of_a_chain"] = True
     if event.get("ev") in ("Raised", "Hang"):
         sig["exception"] = str((tr.get("stimulus") or {}).get("exception", ""))[:70]
     return sig
@@ -670,6 +721,8 @@ def main(tier: str, seed: int) -> int:
                         emitted.add((label, i + 1, d, t))
         hosts = [n["name"] for n in topo if n["kind"] == "host"]
         ftraces += run_exchanges(rec, pair_builder(topo), hosts, KINDS, label, chk)
+        if len(hosts) >= 3:
+            ftraces += run_chains(rec, pair_builder(topo), hosts, label, chk)
         ft, ns = run_faults(topo, label, chk, rng, budget=8 if not deep else 40)
         ftraces += ft
         chk.cov["sends_with_nodes_powered_off"] = chk.cov.get("sends_with_nodes_powered_off", 0) + ns
